@@ -13,7 +13,7 @@ tie modules.
 
 Afterwards the generated files are restored from the unmodified /repo and the scratch tree is removed.
 Usage: /venv/bin/python harness/dev/commands_tie_experiments.py [group ...]
-       (groups: normalize gate start test update)
+       (groups: normalize gate start test update show)
 Output table: harness/dev/commands_tie_experiments.out.txt
 """
 import os
@@ -33,7 +33,7 @@ sys.path.insert(0, HARNESS)
 
 TIES = ["BumpverVerif.Proofs.Tie_cmdNormalizeSetVersion", "BumpverVerif.Proofs.Tie_cmdIsValidVersion",
         "BumpverVerif.Proofs.Tie_cmdUpdateCfgFromVcs", "BumpverVerif.Proofs.Tie_cmdTest", "BumpverVerif.Proofs.Tie_cmdTestAny",
-        "BumpverVerif.Proofs.Tie_cmdUpdate"]
+        "BumpverVerif.Proofs.Tie_cmdUpdate", "BumpverVerif.Proofs.Tie_cmdShow"]
 
 E = []
 C = "cli.py"
@@ -439,6 +439,58 @@ E.append(dict(group="update", func="cli.incr_dispatch (callee)", file=C, kind="h
                       "    has_v1_part = False\n    for part in v1_parts:\n        if \"{\" + part + \"}\" in raw_pattern:\n"
                       "            has_v1_part = True\n            break\n")]))
 
+
+# ---------------------------------------------------------------------------------------------------
+# show
+# ---------------------------------------------------------------------------------------------------
+SH = "cli.show"
+SHOW_CFG = ("    if cfg is None:\n"
+            "        logger.error(\"Could not parse configuration. Perhaps try 'bumpver init'.\")\n"
+            "        sys.exit(1)\n\n")
+SHOW_VCS = "    if not ignore_vcs_tag:\n        cfg = _update_cfg_from_vcs(cfg, fetch)\n\n    if env:\n"
+SHOW_ECHO = ("        click.echo(f\"Current Version: {cfg.current_version}\")\n"
+             "        click.echo(f\"PEP440         : {cfg.pep440_version}\")\n")
+exp("show", SH, "break", "`fetch` not passed on (`_update_cfg_from_vcs(cfg, False)`)",
+    SHOW_VCS, SHOW_VCS.replace("(cfg, fetch)", "(cfg, False)"))
+exp("show", SH, "break", "`ignore_vcs_tag` test inverted",
+    SHOW_VCS, SHOW_VCS.replace("if not ignore_vcs_tag:", "if ignore_vcs_tag:"))
+exp("show", SH, "break", "the tag lookup also gated by --fetch",
+    SHOW_VCS, SHOW_VCS.replace("if not ignore_vcs_tag:", "if not ignore_vcs_tag and fetch:"))
+exp("show", SH, "break", "`cfg.pep440_version` echoed as the current version",
+    SHOW_ECHO, SHOW_ECHO.replace("Current Version: {cfg.current_version}", "Current Version: {cfg.pep440_version}"))
+exp("show", SH, "break", "the PEP440 line shows the current version",
+    SHOW_ECHO, SHOW_ECHO.replace("PEP440         : {cfg.pep440_version}", "PEP440         : {cfg.current_version}"))
+exp("show", SH, "break", "update-from-VCS AFTER the echo (the configured version is reported)",
+    SHOW_VCS, "    if env:\n",
+    also=[(SHOW_ECHO, SHOW_ECHO + "\n    if not ignore_vcs_tag:\n        cfg = _update_cfg_from_vcs(cfg, fetch)\n")])
+exp("show", SH, "break", "no configuration: exit code 0",
+    SHOW_CFG, SHOW_CFG.replace("sys.exit(1)", "sys.exit(0)"))
+exp("show", SH, "break", "the two lines in the other order",
+    SHOW_ECHO, "        click.echo(f\"PEP440         : {cfg.pep440_version}\")\n        click.echo(f\"Current Version: {cfg.current_version}\")\n")
+exp("show", SH, "break", "plain output under `--environ` (`elif not environ`)",
+    "    elif environ:\n        version_info", "    elif not environ:\n        version_info")
+exp("show", SH, "harmless", "locals renamed, `if ignore_vcs_tag: pass else:`",
+    SHOW_VCS, "    if ignore_vcs_tag:\n        pass\n    else:\n        cfg = _update_cfg_from_vcs(cfg, fetch=fetch)\n\n    if env:\n")
+exp("show", SH, "harmless", "the version in a local before it is echoed",
+    SHOW_ECHO, "        current = cfg.current_version\n        click.echo(f\"Current Version: {current}\")\n"
+               "        click.echo(f\"PEP440         : {cfg.pep440_version}\")\n")
+exp("show", SH, "harmless", "f-strings as concatenations, explicit `return` after the plain output",
+    "    else:\n" + SHOW_ECHO,
+    "    else:\n        click.echo(\"Current Version: \" + cfg.current_version)\n"
+    "        click.echo(\"PEP440         : \" + cfg.pep440_version)\n        return\n")
+exp("show", SH, "harmless", "`env` / `environ` tested in nested ifs",
+    "    elif environ:\n        version_info = v2version.parse_version_info(cfg.current_version, cfg.version_pattern)\n"
+    "        for key, val in version_info._asdict().items():\n"
+    "            click.echo(f\"{key.upper()}={'' if (val is False or val is None) else val}\")\n"
+    "        click.echo(f\"CURRENT_VERSION={cfg.current_version}\")\n"
+    "        click.echo(f\"PEP440_VERSION={cfg.pep440_version}\")\n    else:\n" + SHOW_ECHO,
+    "    else:\n        if environ:\n"
+    "            version_info = v2version.parse_version_info(cfg.current_version, cfg.version_pattern)\n"
+    "            for key, val in version_info._asdict().items():\n"
+    "                click.echo(f\"{key.upper()}={'' if (val is False or val is None) else val}\")\n"
+    "            click.echo(f\"CURRENT_VERSION={cfg.current_version}\")\n"
+    "            click.echo(f\"PEP440_VERSION={cfg.pep440_version}\")\n        else:\n"
+    + SHOW_ECHO.replace("        click", "            click"))
 
 def run(cmd, **kw):
     return subprocess.run(cmd, stdout=subprocess.PIPE, stderr=subprocess.STDOUT, text=True, **kw)
